@@ -389,6 +389,8 @@ class Interp:
             if callable(c) and not isinstance(c, (V, PyObj)):
                 c = c()
             return c if isinstance(c, (V, PyObj)) else K.from_py_const(c)
+        if name == '__name__':
+            return K.vstr(z3.String('module!__name__'))
         if name in ('True', 'False', 'None'):
             return K.from_py({'True': True, 'False': False, 'None': None}[name])
         if name in MODULES or name in self.w.module_names:
